@@ -175,3 +175,54 @@ def run_method(payload):
     return {'result': repr(res), 'raised': raised, 'err': e.err, 'port_present': e.port is not None,
             'writes': [w.decode('latin-1') for w in (port.writes if port else [])],
             'board': {'vars': dev.vars, 'nick': dev.nick, 'en1': dev.en1, 'en2': dev.en2, 'mode': dev.mode}}
+
+
+def replay_latch(payload):
+    """call a request method on a blocked object: nothing may reach the port, err/port unchanged, failure value"""
+    st = payload.get('state', {})
+    port = FakePort([], default=b'OK\r\n') if st.get('port', True) else None
+    e = new_obj(port, st.get('err'))
+    fv = payload.get('fail_value')
+    if isinstance(fv, list):
+        fv = tuple(fv)
+    try:
+        res = getattr(e, payload['method'])(*payload.get('args', []))
+    except Exception as ex:    # noqa
+        return {'fails': True, 'observed': f'raised {type(ex).__name__}: {ex}', 'expected': 'no exception'}
+    problems = []
+    if port is not None and (port.n_writes or port.n_reads or port.closed):
+        problems.append(f'port touched: writes={port.writes} reads={port.n_reads} closed={port.closed}')
+    if e.err != st.get('err'):
+        problems.append(f'err changed to {e.err!r}')
+    if e.port is not port:
+        problems.append('port attribute changed')
+    if res != fv or type(res) is not type(fv):
+        problems.append(f'returned {res!r}, documented failure value {fv!r}')
+    return {'fails': bool(problems), 'observed': '; '.join(problems) or repr(res), 'expected': f'{fv!r}, nothing transmitted'}
+
+
+def replay_overwrite(payload):
+    """history: latch an error, disconnect, connect again to a board with old firmware (and to a silent one);
+    the first message must survive"""
+    import plotink.ebb3_serial as es
+    results = []
+    for second in ([b'EBBv13_and_above EB Firmware Version 2.8.1\r\n'], [b'', b''], [b'EBBv13_and_above EB Firmware Version 3.0.2\r\n', b'CU\r\n', b'QT\r\n']):
+        e = ebb3_motion.EBBMotionWrap()
+        e.port = FakePort([b'!8 Err: boom\r\n'])
+        e.command('SM,1,0,0')
+        first = e.err
+        e.disconnect()
+        fp = FakePort(list(second))
+        old_serial, old_comports = es.serial.Serial, es.comports
+        es.serial.Serial = lambda *a, **k: fp
+        es.comports = lambda: [('/dev/ttyACM0', 'EiBotBoard', 'USB VID:PID=04D8:FD92')]
+        try:
+            e.connect()
+        except Exception as ex:     # noqa
+            return {'fails': True, 'observed': f'connect raised {type(ex).__name__}', 'expected': 'no exception'}
+        finally:
+            es.serial.Serial, es.comports = old_serial, old_comports
+        if e.err != first:
+            return {'fails': True, 'observed': f'err replaced by {e.err!r}', 'expected': f'{first!r}', 'confirmed': True}
+        results.append(e.err)
+    return {'fails': False, 'observed': 'first message kept', 'expected': 'first message kept'}
